@@ -371,7 +371,8 @@ func pathClass(p string) string {
 type structDesc struct {
 	V    vcfg   `json:"v"`
 	Op   string `json:"op"` // swap dup del splice-entries splice-header splice-hmac splice-certchain truncate
-	I, J int    `json:"i"`
+	I    int    `json:"i"`
+	J    int    `json:"j"`
 	Sib  vcfg   `json:"sib"` // sibling voucher for splices
 	Fork bool   `json:"fork"`
 }
@@ -591,6 +592,16 @@ func allConfigs() []vcfg {
 	return out
 }
 
+func genAlt(t *rapid.T) altDesc {
+	d := altDesc{V: genV(t, 1), Bit: -1}
+	if rapid.IntRange(0, 2).Draw(t, "bitflip") == 0 {
+		d.Bit = rapid.IntRange(0, 1<<17).Draw(t, "bit")
+	} else {
+		d.Mut = refcbor.Mutation{Node: rapid.IntRange(0, 400).Draw(t, "node"), Op: rapid.SampledFrom(refcbor.Ops).Draw(t, "op"), Arg: int64(rapid.IntRange(-60, 60).Draw(t, "arg"))}
+	}
+	return d
+}
+
 func TestC04(t *testing.T) {
 	r := ev.Start(t, "C04")
 	defer r.Finish()
@@ -607,15 +618,7 @@ func TestC04(t *testing.T) {
 	r.SetRule("positive-random", "rapid-generated (key, enc, owner sequence over keys 0..3 with repeats, device); same oracle as positive")
 
 	r.SetRule("alteration", "voucher from (key, enc, owner sequence 1..4) × one structure-aware mutation (all operators of the engine, descending into the header bstr, entry payloads and protected headers) or one bit flip of the encoded voucher. Oracle: decoding fails or at least one of VerifyHeader/VerifyManufacturerKey/VerifyCertChainHash/VerifyDeviceCertChain/VerifyEntries/OwnerPublicKey fails — unless the alteration lies in the outer version or an entry's unprotected header map, or the decoded voucher re-encodes to the original bytes; never a panic. Non-trivial: altered voucher with ≥1 entry; distinct by (voucher, operator, path, arg/bit).")
-	ev.Rapid(r, "alteration", ev.N{Quick: 16000, Thorough: 600000}, func(t *rapid.T) altDesc {
-		d := altDesc{V: genV(t, 1), Bit: -1}
-		if rapid.IntRange(0, 2).Draw(t, "bitflip") == 0 {
-			d.Bit = rapid.IntRange(0, 1<<17).Draw(t, "bit")
-		} else {
-			d.Mut = refcbor.Mutation{Node: rapid.IntRange(0, 400).Draw(t, "node"), Op: rapid.SampledFrom(refcbor.Ops).Draw(t, "op"), Arg: int64(rapid.IntRange(-60, 60).Draw(t, "arg"))}
-		}
-		return d
-	}, evalAlt)
+	ev.Rapid(r, "alteration", ev.N{Quick: 16000, Thorough: 600000}, genAlt, evalAlt)
 
 	// exhaustive bit flips of one voucher per key type (thorough: all bits; quick: every 3rd byte)
 	r.SetRule("all-bits", "enumeration: every bit (thorough) / one bit in every third byte (quick) of one 2-entry voucher per key type and encoding; same oracle as alteration")
